@@ -134,6 +134,14 @@ theorem slot_scenario_relaxed_races :
      | some s => s.torn && s.raced
      | none => false) = true := by decide
 
+/-- the handles may only be on several threads when the data and the resolver are thread safe
+    (`C08.markers_sound`): the facts that theorem is instantiated with -/
+theorem marker_facts :
+    SourceFacts.nodeSendNeedsDSend = true ∧ SourceFacts.nodeSendNeedsDSync = true ∧
+    SourceFacts.nodeSyncNeedsDSend = true ∧ SourceFacts.nodeSyncNeedsDSync = true ∧
+    SourceFacts.ctorNeedsRSend = true ∧ SourceFacts.ctorNeedsRSync = true ∧
+    SourceFacts.otherUnsafeMarkerImpls = 0 ∧ SourceFacts.greenTokenMarkersUnconditional = true := by decide
+
 /-! ### why the orderings matter: weaker decrements race -/
 
 /-- thread 0 clones and hands the copy to thread 1, which reads the tree and drops; thread 0 drops last -/
